@@ -4,6 +4,7 @@ import (
 	"flag"
 	"fmt"
 	"os"
+	"strings"
 )
 
 func main() {
@@ -33,6 +34,13 @@ func main() {
 		verbose := fs.Bool("v", false, "verbose")
 		fs.Parse(os.Args[2:])
 		os.Exit(runSelftest(*id, *verbose))
+	case "sweep":
+		fs := flag.NewFlagSet("sweep", flag.ExitOnError)
+		pk := fs.String("pkgs", "", "comma-separated package paths (relative to the module)")
+		match := fs.String("match", "", "only functions whose name contains this")
+		verbose := fs.Bool("v", false, "verbose")
+		fs.Parse(os.Args[2:])
+		os.Exit(runSweep(strings.Split(*pk, ","), *match, *verbose))
 	case "warm":
 		os.Exit(runWarm())
 	default:
